@@ -342,7 +342,11 @@ def apply_time_range_vfreebusy(start, end, comp, tzify):
     if dtstart and dtend:
         return start <= tzify(dtend.dt) and end > tzify(dtstart.dt)
 
-    for period in comp.get("FREEBUSY", []):
+    freebusy = comp.get("FREEBUSY", [])
+    if not isinstance(freebusy, list):
+        # A single FREEBUSY property is not wrapped in a list.
+        freebusy = [freebusy]
+    for period in freebusy:
         if start < period.end and end > period.start:
             return True
 
